@@ -9,6 +9,7 @@
 From Coq Require Import String.
 From Coq Require Import List Ascii ZArith Bool.
 From CGV Require Import Base.PyBase Base.PyVal Base.PyGen Base.NxGraph Gen.WriterGen Write.WriteImpl Write.WriteDefs Write.FragDefs.
+From CGV Require Import Dialect.DialectImpl Write.FragRead.
 Import ListNotations.
 Open Scope Z_scope.
 
@@ -23,7 +24,10 @@ Inductive case :=
 | CWhole (base : graph) (tr : list (Z * Z)) (layers : list (list frag_entry)) (last_all_atom : bool)
          (out : option pystr)                   (* write_cgsmiles(base, fragment_dicts, last_all_atom) *)
          (mol1 mol2 : option graph)             (* final molecule of the original string / of [out] *)
-         (wit : option (list (Z * Z))).
+         (wit : option (list (Z * Z)))
+| CRfc (fragname text : pystr)                   (* correspondence only: the coarse branch of fragment_iter *)
+       (ftab : list (pystr * option pystr))      (* float() answers recorded in this run *)
+       (out : option obs_graph).                 (* strip_bonding_descriptors(text), then read_fragment_cgsmiles; None = raised *)
 
 Fixpoint strs_eqb (a b : list pystr) : bool :=
   match a, b with [], [] => true | x :: a', y :: b' => str_eqb x y && strs_eqb a' b' | _, _ => false end.
@@ -39,6 +43,12 @@ Definition corr_ok (c : case) : bool :=
   | CWhole base tr layers laa out _ _ _ =>
       ring_contract base (dfs_tree base) tr && forallb entries_contract layers
       && res_matches (write_cgsmiles base tr layers laa) out
+  | CRfc fragname text ftab out =>
+      match read_coarse_fragment (fo_of_table ftab) fragname text, out with
+      | Ok g, Some o => obs_eqb (observe g) o
+      | Err _, None => true
+      | _, _ => false
+      end
   end.
 
 Fixpoint frags_iso (sf : bool) (entries : list frag_entry) (reread : list (pystr * graph)) (wits : list (list (Z * Z))) : bool :=
@@ -76,6 +86,7 @@ Definition clause_C08 (c : case) : nat :=
               if giso_by mol_label_eqb m1 m2 (match wit with Some w => w | None => [] end) then 0%nat else 5%nat
           end
       end
+  | CRfc _ _ _ _ => 0%nat
   end.
 
 Definition class_C08 (c : case) : nat :=
@@ -90,6 +101,7 @@ Definition class_C08 (c : case) : nat :=
                  end
       | k => k
       end
+  | CRfc _ _ _ _ => 0%nat
   end.
 
 (** the domain: descriptors are kind + alphanumeric label + order 0..3 *)
@@ -98,6 +110,7 @@ Definition wf_case (c : case) : bool :=
   | CFb _ L _ _ => forallb wf_descr L
   | CFrag _ entries _ _ _ => forallb (fun e => let '(_, g, _, _) := e in forallb (fun n => forallb wf_descr (node_bonding (na n))) g) entries
   | CWhole _ _ _ _ _ _ _ _ => true
+  | CRfc _ _ _ _ => true
   end.
 
 Definition prop_fail (c : case) : nat :=
